@@ -50,6 +50,7 @@ Init == /\ blk = <<>> /\ byh = [h \in 1..MaxHeight |-> <<>>] /\ minting = TRUE
 (* environment: a new valid block on any known block; pos = number of same-height hashes below the new one *)
 Mint(p, pos) ==
   /\ minting /\ Len(blk) < MaxBlocks /\ Height(p) < MaxHeight
+  /\ (Len(blk) > 0) => p >= blk[Len(blk)].p     \* canonical labelling: parents in non-decreasing order
   /\ LET h == Height(p) + 1  id == Len(blk) + 1 IN
      /\ pos \in 0..Len(byh[h])
      /\ blk' = Append(blk, [p |-> p, h |-> h])
